@@ -246,9 +246,11 @@ class BitStore:
         ...
 
     def setitem_lsb0(self, key: Union[int, slice], value: Union[int, BitStore], /) -> None:
+        if isinstance(value, BitStore):
+            value = value._bitarray
         if isinstance(key, slice):
             new_slice = offset_slice_indices_lsb0(key, len(self))
-            self._bitarray.__setitem__(new_slice, value._bitarray)
+            self._bitarray.__setitem__(new_slice, value)
         else:
             self._bitarray.__setitem__(-key - 1, value)
 
